@@ -118,11 +118,93 @@ fn wrap_call(rng: &mut Rng, call: &str) -> String {
     }
 }
 
+/// Several templates of one batch each carry add-time faults (orphan top-level blocks in children, unknown filters, tests,
+/// functions, components, include targets): the combined report must hold one entry per fault, each naming its own
+/// template, the line:column of its own token and quoting its own line.
+fn multi_build_case(cx: &mut Cx, rng: &mut Rng) {
+    let ntpl = 2 + rng.below(3);
+    let mut tpls: Vec<(String, String)> = vec![("parent.html".into(), "P{% block a %}pa{% endblock %}".into())];
+    // (template, token, needle)
+    let mut faults: Vec<(String, String, String)> = vec![];
+    let mut uid = 0;
+    for i in 0..ntpl {
+        let name = format!("c{i}.html");
+        // children of the parent, or of the previous child
+        let parent = if i > 0 && rng.bool() { format!("c{}.html", i - 1) } else { "parent.html".to_string() };
+        let mut src = format!("{{% extends \"{parent}\" %}}");
+        for _ in 0..(1 + rng.below(2)) {
+            src.push_str(&filler(rng));
+            uid += 1;
+            let (text, tok, needle) = match rng.below(6) {
+                0 | 1 => (format!("{{% block zz{uid} %}}x{{% endblock %}}"), format!("zz{uid}"), format!("zz{uid}")),
+                2 => (format!("{{{{ 1 | nofilter_{uid} }}}}"), format!("nofilter_{uid}"), format!("nofilter_{uid}")),
+                3 => (format!("{{{{ 1 is notest_{uid} }}}}"), format!("notest_{uid}"), format!("notest_{uid}")),
+                4 => (format!("{{{{ nofunc_{uid}() }}}}"), format!("nofunc_{uid}"), format!("nofunc_{uid}")),
+                _ => (format!("{{% include \"nofile_{uid}.html\" %}}"), format!("\"nofile_{uid}.html\""), format!("nofile_{uid}.html")),
+            };
+            src.push_str(&text);
+            faults.push((name.clone(), tok, needle));
+        }
+        src.push_str(&filler(rng));
+        tpls.push((name, src));
+    }
+    if rng.bool() {
+        tpls.reverse();
+    }
+    let replay = json!({"templates": tpls, "faults": faults});
+    cx.eval();
+    cx.count("multi_template_build_reports", 1);
+    cx.cell(format!("build-multi|templates{ntpl}|faults{}", faults.len()));
+    let res = guard(|| {
+        let mut t = Tera::default();
+        t.add_raw_templates(tpls.clone()).map_err(|e| e.to_string())
+    });
+    match res {
+        Err(p) => cx.violation(&format!("C12/panic/build-multi/{}", panic_site(&p)), format!("registration of several faulty templates panicked: {p}"), replay),
+        Ok(Ok(())) => cx.violation("C12/no-error/build-multi", "a batch with add-time faults was accepted".to_string(), replay),
+        Ok(Err(d)) => {
+            let mut why: Vec<String> = vec![];
+            for (tn, tok, needle) in &faults {
+                let src = &tpls.iter().find(|(n, _)| n == tn).unwrap().1;
+                let off = src.find(tok.as_str()).unwrap();
+                let (l, c) = pos(src, off).unwrap();
+                let locus = format!("--> {tn}:{l}:{}", c + 1);
+                // the report block of this fault: the one whose message line (its first line) names the needle
+                let Some(block) = d.split("\n\nerror: ").find(|b| b.lines().next().unwrap_or("").contains(needle.as_str())) else {
+                    why.push(format!("missing-report: nothing about `{needle}` ({tn})"));
+                    continue;
+                };
+                if !block.contains(&locus) {
+                    let found: Vec<&str> = block.lines().filter(|x| x.contains("-->")).collect();
+                    why.push(format!("wrong-locus: the report about `{needle}` should say `{locus}`, it says {found:?}"));
+                }
+                let line = src.split('\n').nth(l - 1).unwrap_or("");
+                let line = line.strip_suffix('\r').unwrap_or(line);
+                if !block.contains(line) {
+                    why.push(format!("wrong-line-quoted: the report about `{needle}` does not quote line {l} of {tn}"));
+                }
+            }
+            let nrep = d.split("\n\nerror: ").count();
+            if nrep != faults.len() {
+                why.push(format!("report-count: {nrep} reports for {} faults", faults.len()));
+            }
+            for w in why {
+                let head = w.split(':').next().unwrap_or("x").to_string();
+                cx.violation(&format!("C12/{head}/build-multi"), format!("{w}; report: {}", clip(&d, 600)), replay.clone());
+            }
+        }
+    }
+}
+
 pub fn run(cx: &mut Cx) {
     let total = cx.total(200_000, 5_000_000);
     for case in cx.my_cases(total) {
         cx.begin_case(case, "fault");
         let mut rng = cx.rng(case);
+        if case % 12 == 11 {
+            multi_build_case(cx, &mut rng);
+            continue;
+        }
         let class = match rng.below(10) {
             0..=4 => "render",
             5 | 6 => "syntax",
